@@ -186,6 +186,21 @@ fn smix(b: &mut [u8], r: usize, N: usize, v: &mut [u32], x: &mut [u32], y: &mut 
     }
 }
 
+/// Verification hook (off unless built with `--cfg finfet_kestrel_verif`):
+/// the Salsa20/8 core on one 64-byte block.
+#[cfg(finfet_kestrel_verif)]
+pub(crate) fn verif_salsa20_8(block: &[u8]) -> Vec<u8> {
+    assert!(block.len() == 64);
+    let mut inn = [0u32; 16];
+    for (i, w) in inn.iter_mut().enumerate() {
+        *w = u32::from_le_bytes(block[4 * i..4 * i + 4].try_into().unwrap());
+    }
+    let mut tmp = [0u32; 16];
+    let mut out = [0u32; 16];
+    salsa_xor(&mut tmp, &inn, &mut out);
+    out.iter().flat_map(|w| w.to_le_bytes()).collect()
+}
+
 pub(crate) fn scrypt(
     password: &[u8],
     salt: &[u8],
